@@ -9,23 +9,13 @@ open Ls Ls.Lmdb Ls.Merge
 
 /-! ### facts about the generated name constants -/
 
-theorem syncPrefix_eq : syncPrefix = [95, 115, 121, 110, 99] := by decide +kernel
-theorem shadowPrefix_eq : shadowPrefix = syncPrefix ++ [95, 115, 104, 97, 100, 111, 119, 95] := by
-  decide +kernel
 theorem dupsortTransform_ne_nil : strBytes Gen.transformDupSortHackV1 ≠ [] := by decide +kernel
-
-/-- a shadow DBI name is a private name -/
-theorem isPrivate_shadowName (name : Bytes) : isPrivate (shadowName name) = true := by
-  simp [isPrivate, shadowName, shadowPrefix_eq, syncPrefix_eq, List.isPrefixOf]
 
 theorem shadowName_ne (name : Bytes) : shadowName name ≠ name := by
   intro h
   have := congrArg List.length h
   simp [shadowName, shadowPrefix_eq, syncPrefix_eq] at this
   omega
-
-theorem shadowName_inj {a b : Bytes} (h : shadowName a = shadowName b) : a = b :=
-  List.append_cancel_left h
 
 
 /-! ### position-wise relation of two lists (core Lean has no `Forall₂`) -/
